@@ -66,7 +66,31 @@ package channel
 //@   modifies rdPos(o.hdr.rd), o.hdr.rbuf, mem(o.hdr.rbuf)
 //@   ensures[C12:error-no-record] result1 != nil && !isCTMismatch(result1) ==> result0 == nil
 //@   ensures[C12:absent-type-ok] isCTMismatch(result1) ==> unboxas(result1, "*channel.ContentTypeMismatchError").Got != ""
+//@   ensures[C12:present-type-reported] called("call.Recv#1") && isCTMismatch(callres("call.Recv#1", 1, "error")) && unboxas(callres("call.Recv#1", 1, "error"), "*channel.ContentTypeMismatchError").Got != "" ==> result1 == callres("call.Recv#1", 1, "error")
+//@   ensures[C12:other-errors-kept] called("call.Recv#1") && !isCTMismatch(callres("call.Recv#1", 1, "error")) ==> result1 == callres("call.Recv#1", 1, "error")
+//@   ensures[C11:record-kept] called("call.Recv#1") ==> result0 == callres("call.Recv#1", 0, "bytes")
 //@   ensures[C11:body] result1 == nil || isCTMismatch(result1) ==> len(result0) <= rdPos(o.hdr.rd) - old(rdPos(o.hdr.rd)) && forall(i int, 0 <= i && i < len(result0) ==> result0[i] == rdIn(o.hdr.rd)[rdPos(o.hdr.rd) - len(result0) + i])
 
 //@ func isNull
 //@   ensures result == (len(msg) == 4 && msg[0] == 'n' && msg[1] == 'u' && msg[2] == 'l' && msg[3] == 'l')
+
+// Send performs exactly one Write: the optional Content-Type line, the
+// Content-Length line with the decimal length of msg, a blank line, then msg.
+//@ func (*hdr).Send
+//@   requires h.buf != nil && h.wc != nil
+//@   modifies writes(h.wc), wrLen(h.wc), wrData(h.wc), bufLen(h.buf), bufData(h.buf)
+//@   ensures[C11:one-write] writes(h.wc) == old(writes(h.wc)) + 1
+//@   ensures[C11:length] wrLen(h.wc) == len(h.ctype) + 16 + len(itoa(len(msg))) + 4 + len(msg)
+//@   ensures[C11:ctype] forall(k int, 0 <= k && k < len(h.ctype) ==> wrData(h.wc)[k] == h.ctype[k])
+//@   ensures[C11:clen] forall(k int, len(h.ctype) + 16 <= k && k < len(h.ctype) + 16 + len(itoa(len(msg))) ==> wrData(h.wc)[k] == itoa(len(msg))[k - (len(h.ctype) + 16)])
+//@   ensures[C11:body] forall(k int, wrLen(h.wc) - len(msg) <= k && k < wrLen(h.wc) ==> wrData(h.wc)[k] == msg[k - (wrLen(h.wc) - len(msg))])
+
+// RawJSON: framing is the stream decoder's; what the package adds is that a
+// decoding error yields no record and that a JSON null is an empty record.
+//@ func (jsonc).Recv
+//@   ensures[C12:error-no-record] result1 != nil ==> result0 == nil
+//@ func (jsonc).Send
+//@   requires c.wc != nil
+//@   modifies writes(c.wc), wrLen(c.wc), wrData(c.wc)
+//@   ensures[C11:one-write] writes(c.wc) == old(writes(c.wc)) + 1
+//@   ensures[C11:bytes] len(msg) != 0 && !(len(msg) == 4 && msg[0] == 'n' && msg[1] == 'u' && msg[2] == 'l' && msg[3] == 'l') ==> wrLen(c.wc) == len(msg) && forall(i int, 0 <= i && i < len(msg) ==> wrData(c.wc)[i] == msg[i])
